@@ -38,6 +38,7 @@ func (f *Frame) enterLoop(li *loopInfo, b *ssa.BasicBlock, preds []*ssa.BasicBlo
 			}
 		}
 		ctx := f.specCtx(heaps[pi], env)
+		ctx.locals = true
 		for k, inv := range invs {
 			name := f.callPath + fmt.Sprintf("inv.entry.%d.%s", li.n, clauseName(inv, k))
 			if len(preds) > 1 {
@@ -59,9 +60,20 @@ func (f *Frame) enterLoop(li *loopInfo, b *ssa.BasicBlock, preds []*ssa.BasicBlo
 		}
 		f.env[phi] = f.freshVal(f.prefix+name, phi.Type(), heap)
 	}
+	// range loops: the hidden index only grows from -1 (go/ssa lowering)
+	for _, ins := range b.Instrs {
+		phi, ok := ins.(*ssa.Phi)
+		if !ok {
+			break
+		}
+		if phi.Comment == "rangeindex" {
+			vc.assume(implies(reach, app(">=", f.env[phi].E, "(- 1)")))
+		}
+	}
 	// 3. assume invariants
 	li.hdrHeap = heap.clone()
 	ctx := f.specCtx(heap, nil)
+	ctx.locals = true
 	for _, inv := range invs {
 		vc.assume(implies(reach, ctx.evalBool(inv.E)))
 	}
@@ -109,6 +121,7 @@ func (f *Frame) backEdge(li *loopInfo, latch *ssa.BasicBlock) {
 		}
 	}
 	ctx := f.specCtx(f.end[latch].heap, env)
+	ctx.locals = true
 	suffix := ""
 	if len(li.latches) > 1 {
 		for k, l := range li.latches {
@@ -329,11 +342,12 @@ func (f *Frame) havocLoop(li *loopInfo, h *Heap, reach string) {
 								ctx.binds[l.Name] = ctx.eval(l.E)
 							}
 							for _, m := range ct.Modifies {
-								comp, sort, ref, _, okk := ctx.lvalueTarget(m)
+								ts, okk := ctx.lvalueTargets(m)
 								if !okk {
 									all = true
-								} else {
-									add(comp, sort, ref)
+								}
+								for _, t := range ts {
+									add(t.comp, t.sort, t.ref)
 								}
 							}
 							if !ctx.failed {
@@ -360,12 +374,17 @@ func (f *Frame) havocLoop(li *loopInfo, h *Heap, reach string) {
 				return
 			}
 			for _, m := range ct.Modifies {
-				comp, sort, ok := f.en.lvalueComp(m, fn)
+				ts, ok := f.en.lvalueComps(m, fn)
 				if !ok {
 					all = true
 					return
 				}
-				add(comp, sort, "")
+				for _, t := range ts {
+					if t.sort == "MapDom" || t.sort == "MapVal" {
+						f.vc.mapSort(t.comp, f.en.mapSortMemo[t.comp])
+					}
+					add(t.comp, t.sort, "")
+				}
 			}
 			return
 		}
@@ -520,12 +539,14 @@ func (f *Frame) frameEntries() ([]modEntry, bool) {
 	}
 	ctx := &SpecCtx{f: root, fn: root.fn, params: root.params, heap: root.entry, old: root.entry, binds: root.lets, pkg: pkgOf(root.fn)}
 	for _, m := range root.ct.Modifies {
-		comp, _, ref, idx, ok := ctx.lvalueTarget(m)
+		ts, ok := ctx.lvalueTargets(m)
 		if !ok {
 			f.vc.errorf("cannot evaluate modifies entry %s of %s", m, root.ct.Key)
 			continue
 		}
-		root.modCache = append(root.modCache, modEntry{comp, ref, idx})
+		for _, t := range ts {
+			root.modCache = append(root.modCache, modEntry{t.comp, t.ref, t.idx})
+		}
 	}
 	return root.modCache, false
 }
